@@ -17,7 +17,7 @@
 (* engines share an operation mode with engine 1 (the quick tier)  .       *)
 (***************************************************************************)
 EXTENDS Factory
-CONSTANTS Menu, Three, MaxPipe, Feats, Overlap
+CONSTANTS Menu, Three, MaxPipe, Feats, Overlap, FullPrefs
 
 F2 == SUBSET Feats      \* Feats = {"f"} or {"f", "g"}
 Prof(m, fs, p, c, o, a, rm, boom) ==
@@ -46,7 +46,9 @@ Profiles == IF Menu = "all" THEN PlannerProfiles \cup OtherProfiles \cup Compile
 
 Names == IF Three THEN 1..3 ELSE 1..2
 \* duplicate-free sequences over Names, plus one list with a repeated name
-PrefMenu == UNION {{p \in [1..n -> Names] : \A i, j \in 1..n : i # j => p[i] # p[j]} : n \in 0..Cardinality(Names)}
+\* (FullPrefs = FALSE: only the permutations of all names and the repeated list)
+PrefMenu == UNION {{p \in [1..n -> Names] : \A i, j \in 1..n : i # j => p[i] # p[j]} :
+                      n \in (IF FullPrefs THEN 0 ELSE Cardinality(Names))..Cardinality(Names)}
             \cup {<<2, 1, 2>>}
 
 OG == {None, "O", "Z"}
